@@ -85,6 +85,7 @@ type c16opts struct {
 	Series    string            `json:"series,omitempty"`
 	IssueDate string            `json:"issue_date,omitempty"`
 	CopyTax   bool              `json:"copy_tax,omitempty"`
+	Stamps    []map[string]string `json:"stamps,omitempty"`
 }
 
 func str(n *jmut.Node, keys ...string) string {
@@ -162,7 +163,7 @@ func checkCorrection(src, res *jmut.Node, o c16opts, cd corrDef, srcStamps map[s
 		found := false
 		if st := p.Get("stamps"); st != nil {
 			for _, s := range st.A {
-				if str(s, "prv") == prov && str(s, "val") == srcStamps[prov] {
+				if str(s, "prv") == prov && (str(s, "val") == srcStamps[prov] || (len(o.Stamps) > 0 && str(s, "val") == "OPTION-"+prov)) {
 					found = true
 				}
 			}
@@ -252,6 +253,12 @@ func runC16(c *Ctx) {
 			for _, reason := range []string{"", "corrected by verif"} {
 				for _, ext := range exts {
 					o := c16opts{Type: t, Reason: reason, Ext: ext}
+					if len(s.stamps) > 0 && rng.IntN(2) == 0 {
+						// the caller supplies the stamps again, with other values
+						for prov := range s.stamps {
+							o.Stamps = append(o.Stamps, map[string]string{"prv": prov, "val": "OPTION-" + prov})
+						}
+					}
 					switch rng.IntN(4) {
 					case 0:
 						o.Series = "CR"
